@@ -237,9 +237,26 @@ def transfer_points(lines, cap=160):
 def fault_ops(p):
     return [a for a in canon_ops(p) if a[0] not in ('width', 'height', 'background_color', 'set_background_color')]
 
+def fault_prefixes(p):
+    """mode-changing calls after which a call may take a different path (quick waveform / quick refresh / partial mode)"""
+    V = op_variants(p, False)
+    pre = []
+    for name in ('set_lut', 'set_refresh'):
+        for v in V.get(name, []):
+            if v[-1] == 'quick':
+                pre.append([v])
+    for name in ('update_partial_frame', 'update_old_frame', 'update_partial_old_frame'):
+        if name in V:
+            pre.append([V[name][0]])
+    return pre
+
 def suite_faultprobe(p):
-    """the fault-free calls whose real traces give the fault points (tools/vlib.py fault_plan)"""
-    return [case("q%d" % i, p, [['new'], a]) for i, a in enumerate(fault_ops(p))]
+    """the fault-free calls whose real traces give the fault points (tools/vlib.py fault_plan): `new; op` and
+    `new; prefix; op` for every mode-changing prefix"""
+    out = [case("q%d" % i, p, [['new'], a]) for i, a in enumerate(fault_ops(p))]
+    for j, pre in enumerate(fault_prefixes(p)):
+        out += [case("r%d_%d" % (j, i), p, [['new']] + pre + [a]) for i, a in enumerate(fault_ops(p))]
+    return out
 
 def suite_fault(p, rng, dense=False, plan=None):
     """for every canonical op: new; op with the k-th transfer failing; then a recovery suffix.  With a plan (from the
@@ -263,6 +280,13 @@ def suite_fault(p, rng, dense=False, plan=None):
         for k in sorted(set(ka)):
             out.append(case("f%d" % i, p, [['new'], a] + rec, fault="1:%d" % k))
             i += 1
+    # the same call after a mode-changing prefix, where its fault-free real trace differs from the one without prefix
+    for j, pre in enumerate(fault_prefixes(p)):
+        for a in ops:
+            key = 'P%d|%s' % (j, ' '.join(a))
+            for k in sorted(set(plan.get(key) or [])):
+                out.append(case("f%d" % i, p, [['new']] + pre + [a] + rec, fault="%d:%d" % (1 + len(pre), k)))
+                i += 1
     return out
 
 def suite_rand(p, rng, n=40, maxlen=6):
